@@ -1,7 +1,7 @@
 (** Boolean comparators evaluated by the correspondence checks of C15 and C16 (S3 back end):
     the model is run on the observed bucket dumps / walks / fault positions and compared with
     what the real code did against the stand-in. *)
-From Rocfl Require Import Base.Bytes Generated.Consts Model.S3 Model.KnownS3.
+From Rocfl Require Import Base.Bytes Generated.Consts Model.S3.
 Open Scope N_scope.
 
 Fixpoint list_eqb {A} (eqb : A -> A -> bool) (x y : list A) : bool :=
@@ -129,6 +129,7 @@ Definition req_eqb (a c : req) : bool :=
   | RMpPart x n, RMpPart y m => bytes_eqb x y && (n =? m)
   | RMpComplete x, RMpComplete y => bytes_eqb x y
   | RMpAbort x, RMpAbort y => bytes_eqb x y
+  | RGet x, RGet y => bytes_eqb x y
   | _, _ => false
   end.
 Definition res_class (r : res unit) : N := match r with Ok _ => 0 | Err => 1 | Panic => 2 end.
@@ -137,12 +138,11 @@ Definition check_run (out : res unit * st) (obs_class : N) (obs_log : list req) 
   (res_class (fst out) =? obs_class) && list_eqb req_eqb (st_log (snd out)) obs_log &&
   pairs_set_eqb (st_b (snd out)) obs_bucket.
 
+(** [obs_log]: the mutating requests of the commit and the GETs sent after its first mutating
+    request (the reads of s3.rs:591-602), in order *)
 Definition check_version_run (fa : option N) (cp : bytes) (i : nv_input) (bk : bucket)
            (obs_class : N) (obs_log : list req) (obs_bucket : bucket) : bool :=
   check_run (write_new_version fa cp i (init_st bk)) obs_class obs_log obs_bucket.
 Definition check_object_run (fa : option N) (cp root : bytes) (files : list ufile) (bk : bucket)
            (obs_class : N) (obs_log : list req) (obs_bucket : bucket) : bool :=
   check_run (write_new_object fa cp root files (init_st bk)) obs_class obs_log obs_bucket.
-
-Definition known_c16_rollback (i : nv_input) (k : N) : bool := c16_root_inventory_rollback i k.
-Definition known_c16_walk (vstr sidecar : bytes) (walk : list bytes) : bool := c16_new_object_walk_order vstr sidecar walk.
